@@ -25,7 +25,7 @@ Fields == <<
                                          "set-duplicates", "date-max", "int-min", "bytes-empty", "bytes-big" >>],
   [f |-> "check.expr",       vals |-> << "no-ops", "only-binary", "only-unary", "two-values", "1001-values", "unary-code-7", "binary-code-99",
                                          "op-empty-oneof", "unknown-variable", "div-zero", "min-div-minus1", "set-bytes-eq", "set-bytes-union",
-                                         "regex-invalid", "regex-huge", "type-mix", "deep-parens" >>],
+                                         "regex-invalid", "regex-huge", "type-mix", "deep-parens", "union-mixed-contains", "union-mixed-eq", "inter-mixed-length" >>],
   [f |-> "check.shape",      vals |-> << "no-queries", "empty-query", "head-unbound", "many-queries" >>],
   [f |-> "rule.shape",       vals |-> << "no-body", "self-recursive", "head-var-missing", "matches-set-bytes", "cross-product" >>],
   [f |-> "block.version",    vals |-> << "absent", "0", "2", "4", "2^32-1" >>],
